@@ -268,12 +268,27 @@ private:
 
     std::optional<DFS::SectorBuffer> read_block(unsigned long lba) override
     {
-      if (lba >= sectors_.size())
+      // Look the sector up by its recorded address rather than by
+      // its position in sectors_: when some sector of the disc could
+      // not be decoded, all the sectors after it are at a lower
+      // ordinal position, and we must not return their data in place
+      // of the missing sector's.
+      if (geom_.sectors == 0)
 	return std::nullopt;
-      const Sector& sect(sectors_[lba]);
-      DFS::SectorBuffer buf;
-      std::copy(sect.data.begin(), sect.data.end(), buf.begin());
-      return buf;
+      const unsigned long cylinder = lba / geom_.sectors;
+      const unsigned long record = lba % geom_.sectors;
+      for (const Sector& sect : sectors_)
+	{
+	  if (sect.address.cylinder == cylinder
+	      && sect.address.head == side_
+	      && sect.address.record == record)
+	    {
+	      DFS::SectorBuffer buf;
+	      std::copy(sect.data.begin(), sect.data.end(), buf.begin());
+	      return buf;
+	    }
+	}
+      return std::nullopt;
     }
 
     std::string description() const override
